@@ -147,6 +147,51 @@ def stripBlanks (l : List Tok) : List Tok := l.filter (fun t => t != .space)
 def angle (c : Nat) : List Nat :=
   if c = 60 then [92, 108, 116, 32] else if c = 62 then [92, 103, 116, 32] else [c]
 
+/-- the mathematics classes whose HTML5 templates hand a payload to MathJax -/
+def mathNodeClasses : List String := ["math", "displaymath", "equation", "eqnarray", "eqnarray*"]
+
+def strLtName : List Nat := [108, 116]   -- "lt"
+def strGtName : List Nat := [103, 116]   -- "gt"
+
+/-- the formula with every ordinary `<` / `>` spelled `\lt` / `\gt` (what MathJax is meant to receive) -/
+def ltgtF : F → F
+  | .nil => .nil
+  | .ch c r => if c = 60 then .sym strLtName (ltgtF r) else if c = 62 then .sym strGtName (ltgtF r) else .ch c (ltgtF r)
+  | .sp r => .sp (ltgtF r)
+  | .sym n r => .sym n (ltgtF r)
+  | .csym c r => .csym c (ltgtF r)
+  | .grp b r => .grp (ltgtF b) (ltgtF r)
+  | .sup br a r => .sup br (ltgtF a) (ltgtF r)
+  | .sub br a r => .sub br (ltgtF a) (ltgtF r)
+  | .cmd1 n br a r => .cmd1 n br (ltgtF a) (ltgtF r)
+  | .cmd2 n b1 a1 b2 a2 r => .cmd2 n b1 (ltgtF a1) b2 (ltgtF a2) (ltgtF r)
+  | .root o br a r => .root (ltgtF o) br (ltgtF a) (ltgtF r)
+  | .math b r => .math (ltgtF b) (ltgtF r)
+  | .arr spec b r => .arr spec (ltgtF b) (ltgtF r)
+  | .amp r => .amp (ltgtF r)
+
+/-- a token of the author's formula as MathJax is meant to receive it -/
+def angleTok : Tok → Tok
+  | .ch cat c => if c = 60 then .cs strLtName else if c = 62 then .cs strGtName else .ch cat c
+  | t => t
+
+/-- array column specifications contain no angle characters (they are `l c r |`) -/
+def specsNoAngle : F → Bool
+  | .nil => true
+  | .ch _ r => specsNoAngle r
+  | .sp r => specsNoAngle r
+  | .sym _ r => specsNoAngle r
+  | .csym _ r => specsNoAngle r
+  | .grp b r => specsNoAngle b && specsNoAngle r
+  | .sup _ a r => specsNoAngle a && specsNoAngle r
+  | .sub _ a r => specsNoAngle a && specsNoAngle r
+  | .cmd1 _ _ a r => specsNoAngle a && specsNoAngle r
+  | .cmd2 _ _ a1 _ a2 r => specsNoAngle a1 && specsNoAngle a2 && specsNoAngle r
+  | .root o _ a r => specsNoAngle o && specsNoAngle a && specsNoAngle r
+  | .math b r => specsNoAngle b && specsNoAngle r
+  | .arr spec b r => spec.all (fun c => c != 60 && c != 62) && specsNoAngle b && specsNoAngle r
+  | .amp r => specsNoAngle r
+
 /-! ## verbatim vocabulary -/
 
 /-- the end marker's first occurrence in `body ++ pat` is the final one: no proper prefix ends with it -/
